@@ -12,6 +12,7 @@ import (
 	"sort"
 	"strings"
 	"sync"
+	"time"
 
 	"github.com/cenkalti/rain/v2/internal/addrlist"
 	"github.com/cenkalti/rain/v2/internal/blocklist"
@@ -518,9 +519,16 @@ func addrCase(k int) {
 
 func main() {
 	run = vx.Begin("C18", "exploration",
-		"(a) PRNG rule lists (overlapping, nested, adjacent, /0../32, duplicates, comments, malformed lines) reloaded 1-4 times; Blocked() compared with a linear scan at every range endpoint +-1, the extremes and PRNG points; concurrent Blocked during Reload; (b) PRNG push/pop/reset histories on the candidate address list compared with a reference bounded priority set (eviction victim free among equal time stamps). distinct = distinct rule-list sequences / operation logs")
+		"(c) live sessions with a blocklist fetched from a reference HTTP server and the three switches drawn: blocked / unblocked twins of a listener, an incoming dialer and an HTTP tracker (blocked never contacted while its switch is on, unblocked always), two listeners on one IP (never both connected), the client's own address handed back by the tracker with its external IP (never dialled); (a) PRNG rule lists (overlapping, nested, adjacent, /0../32, duplicates, comments, malformed lines) reloaded 1-4 times; Blocked() compared with a linear scan at every range endpoint +-1, the extremes and PRNG points; concurrent Blocked during Reload; (b) PRNG push/pop/reset histories on the candidate address list compared with a reference bounded priority set (eviction victim free among equal time stamps). distinct = distinct rule-list sequences / operation logs")
 	logger.Disable()
 	_ = os.Getenv
+	if vx.ChildRole() == "sess" {
+		lo, hi := vx.ChildRange()
+		for k := lo; k < hi; k++ {
+			sessionCase(k)
+		}
+		run.Finish(0)
+	}
 	nb := run.N(3000, 300000)
 	vx.Parallel(nb, runtime.NumCPU(), func(k int) {
 		if run.Enough() {
@@ -540,7 +548,10 @@ func main() {
 		run.Eval(1)
 		addrCase(k)
 	})
+	run.RunChildren("sess", run.N(24, 1500), 8, "sess-", 30*time.Second, func(res vx.ChildResult, k int, logp string) {
+		run.Violation("crash:"+vx.NormalisePanic(res.PanicText)+"|"+res.RainFrame, fmt.Sprintf("%s: client crashed: %s at %s (log %s)", res.OpenCase, res.PanicText, res.RainFrame, logp), nil)
+	})
 	run.Assume("the reference set is keyed by the BEP 40 priority value (rain's own peerpriority.Calculate): two addresses with equal priority are one element, as in the implementation's tree")
-	run.Assume("session-level 'never dials / accepts / announces to a filtered address' is observed by the session harness (C18s scenarios) once built")
+	run.Assume("session level: every negative (blocked endpoint never contacted) is paired with a positive control on an unblocked twin in the same scenario; a scenario whose control stays silent is inconclusive")
 	run.Finish(300)
 }
